@@ -12,3 +12,13 @@ Theorem paths_connect_order : connect_paths_ordered = true. Proof. vm_compute. r
 Theorem paths_are_nonvacuous : paths_nonvacuous = true. Proof. vm_compute. reflexivity. Qed.
 Print Assumptions paths_call_accounted.
 Print Assumptions paths_call_unregisters.
+(* second batch *)
+Theorem paths_dispatch_notfound : dispatch_paths_notfound = true. Proof. vm_compute. reflexivity. Qed.
+Theorem paths_response_unknown_ignored : response_paths_unknown_ignored = true. Proof. vm_compute. reflexivity. Qed.
+Theorem paths_writer_notify_then_write : writer_paths_notify_then_write = true. Proof. vm_compute. reflexivity. Qed.
+Theorem paths_receive_loop_close : receive_loop_paths_close = true. Proof. vm_compute. reflexivity. Qed.
+Theorem paths_finish_once : finish_paths_once = true. Proof. vm_compute. reflexivity. Qed.
+Theorem paths_taskloop : taskloop_paths = true. Proof. vm_compute. reflexivity. Qed.
+Theorem paths_docommand : docommand_paths = true. Proof. vm_compute. reflexivity. Qed.
+Theorem paths_doreconnect : doreconnect_paths = true. Proof. vm_compute. reflexivity. Qed.
+Print Assumptions paths_dispatch_notfound.
